@@ -16,10 +16,12 @@ from .model import AnalysisError, norm
 
 
 class Stepper:
-    def __init__(self, assign: Dict[str, bool], resolve: Optional[Callable[[ast.AST], ast.AST]] = None) -> None:
+    def __init__(self, assign: Dict[str, bool], resolve: Optional[Callable[[ast.AST], ast.AST]] = None,
+                 simplify: Optional[Callable[[ast.AST], ast.AST]] = None) -> None:
         self.assign = assign
         self.effects: List[str] = []
         self.resolve = resolve or (lambda e: e)
+        self.simplify = simplify  # applied to every (substituted) condition before it is evaluated
 
     def atom(self, text: str, pol: bool = True) -> bool:
         if text not in self.assign:
@@ -52,7 +54,10 @@ class Stepper:
         """-> (kind, value): kind in fall / continue / break / return / raise"""
         for s in stmts:
             if isinstance(s, ast.If):
-                k, v = self.run(s.body if self.truth(subst(s.test, env)) else s.orelse, env)
+                t = subst(s.test, env)
+                if self.simplify is not None:
+                    t = self.simplify(t)
+                k, v = self.run(s.body if self.truth(t) else s.orelse, env)
                 if k != "fall":
                     return k, v
             elif isinstance(s, (ast.Assign, ast.AnnAssign)):
@@ -78,6 +83,16 @@ class Stepper:
                 return "raise", (subst(s.exc, env) if s.exc is not None else None)
             elif isinstance(s, (ast.Pass, ast.Assert)):
                 continue
+            elif isinstance(s, ast.Try) and not s.finalbody:
+                # two worlds: the guarded statement raises an exception a handler catches (atom "raises: <stmt>"), or nothing raises
+                first = s.body[0] if s.body else None
+                label = "raises: " + (norm(subst(first, env))[:70] if first is not None else "")
+                if s.handlers and self.atom(label):
+                    k, v = self.run(s.handlers[0].body, env)
+                else:
+                    k, v = self.run(list(s.body) + list(s.orelse), env)
+                if k != "fall":
+                    return k, v
             else:
                 raise Unsupported(f"statement kind {type(s).__name__} at line {s.lineno}")
         return "fall", None
